@@ -129,13 +129,13 @@ const C52: u64 = 0x4330_0000_0000_0000;
 // -inf -> 0
 // Greater than 2^23 for f64, 2^52 for f64 -> uint::MAX
 macro_rules! convert_float_to_uint {
-    ($float: ident; direct ($($direct_target: ident),+); $(via $temporary: ident ($($target: ident),+);)*) => {
+    ($float: ident; direct ($($direct_target: ident),+); $(via $temporary: ident ($($target: ident),+);)* $(rounded via $round_temporary: ident ($($round_target: ident),+);)*) => {
         $(
             impl IntoStimulus<$direct_target> for $float {
                 #[inline]
                 fn into_stimulus(self) -> $direct_target {
                     let max = $direct_target::max_intensity() as $float;
-                    let scaled = (self * max).min(max);
+                    let scaled = (self * max).min(max).max(0.0);
                     let f = scaled + f32::from_bits(C23);
                     (f.to_bits().saturating_sub(C23)) as $direct_target
                 }
@@ -148,9 +148,24 @@ macro_rules! convert_float_to_uint {
                     #[inline]
                     fn into_stimulus(self) -> $target {
                         let max = $target::max_intensity() as $temporary;
-                        let scaled = (self as $temporary * max).min(max);
+                        let scaled = (self as $temporary * max).min(max).max(0.0);
                         let f = scaled + f64::from_bits(C52);
                         (f.to_bits().saturating_sub(C52)) as  $target
+                    }
+                }
+            )+
+        )*
+
+        // The magic number trick only works while the scaled value is below
+        // 2^52, so wider targets are rounded and cast (`as` saturates).
+        $(
+            $(
+                impl IntoStimulus<$round_target> for $float {
+                    #[inline]
+                    fn into_stimulus(self) -> $round_target {
+                        let max = $round_target::max_intensity() as $round_temporary;
+                        let scaled = (self as $round_temporary * max).min(max).max(0.0);
+                        Round::round(scaled) as $round_target
                     }
                 }
             )+
@@ -161,15 +176,26 @@ macro_rules! convert_float_to_uint {
 // Double to uint conversion with rounding to nearest even number. Formula
 // follows the form (x_f64 + C52_f64) - C52_u64, where x is the component.
 macro_rules! convert_double_to_uint {
-    ($double: ident; direct ($($direct_target: ident),+);) => {
+    ($double: ident; direct ($($direct_target: ident),+); rounded ($($round_target: ident),+);) => {
         $(
             impl IntoStimulus<$direct_target> for $double {
                 #[inline]
                 fn into_stimulus(self) -> $direct_target {
                     let max = $direct_target::max_intensity() as $double;
-                    let scaled = (self * max).min(max);
+                    let scaled = (self * max).min(max).max(0.0);
                     let f = scaled + f64::from_bits(C52);
                     (f.to_bits().saturating_sub(C52)) as $direct_target
+                }
+            }
+        )+
+
+        $(
+            impl IntoStimulus<$round_target> for $double {
+                #[inline]
+                fn into_stimulus(self) -> $round_target {
+                    let max = $round_target::max_intensity() as $double;
+                    let scaled = (self * max).min(max).max(0.0);
+                    Round::round(scaled) as $round_target
                 }
             }
         )+
@@ -264,7 +290,7 @@ impl IntoStimulus<f64> for f32 {
         f64::from(self)
     }
 }
-convert_float_to_uint!(f32; direct (u8, u16); via f64 (u32, u64, u128););
+convert_float_to_uint!(f32; direct (u8, u16); via f64 (u32); rounded via f64 (u64, u128););
 
 impl IntoStimulus<f32> for f64 {
     #[inline]
@@ -272,7 +298,7 @@ impl IntoStimulus<f32> for f64 {
         self as f32
     }
 }
-convert_double_to_uint!(f64; direct (u8, u16, u32, u64, u128););
+convert_double_to_uint!(f64; direct (u8, u16, u32); rounded (u64, u128););
 
 convert_uint_to_larger_uint!(u8; next u16 (u32, u64, u128));
 
